@@ -230,7 +230,10 @@ def f_gcp(tag):
         pix = np.asarray([[0.0, 0.0], [100.0, 0.0], [100.0, 80.0], [0.0, 80.0]])
         for k in (0, 1):
             _MAPPINGS[k] = gcp.GCPMapping(pix, pix * (k + 2) + 5, "epsg:4326")
-    m = _MAPPINGS[1 if Bool(f"{tag}_mapping") else 0]
+        # the same control points as mapping 0, spelled differently: integer pixel coordinates, and -0.0 for 0.0
+        _MAPPINGS[2] = gcp.GCPMapping(pix.astype("int64"), pix * 2 + 5, "epsg:4326")
+        _MAPPINGS[3] = gcp.GCPMapping(pix * np.asarray([-1.0, 1.0]) * np.asarray([-1.0, 1.0]) + np.asarray([-0.0, 0.0]), pix * 2 + 5, "epsg:4326")
+    m = _MAPPINGS[(1 if Bool(f"{tag}_mapping") else 0) + (2 if Bool(f"{tag}_mapping_spelling") else 0)]
     return gcp.GCPGeoBox((Int(f"{tag}_ny", 1), Int(f"{tag}_nx", 1)), m, Affine(rconst(F(1)), 0.0, Real(f"{tag}_c"), 0.0, rconst(F(1)), Real(f"{tag}_f")))
 
 
